@@ -41,6 +41,20 @@ class NNF(ast.NodeTransformer):
         return n
 
 
+def _truth_test(e):
+    """an expression that yields True / False and has no effect: isinstance / hasattr tests, identity and membership comparisons of
+    names, and their combinations"""
+    if isinstance(e, ast.Call) and isinstance(e.func, ast.Name) and e.func.id in ('isinstance', 'hasattr', 'callable', 'issubclass'):
+        return all(isinstance(a, (ast.Name, ast.Attribute, ast.Subscript, ast.Tuple, ast.Constant)) for a in e.args)
+    if isinstance(e, ast.UnaryOp) and isinstance(e.op, ast.Not):
+        return _truth_test(e.operand)
+    if isinstance(e, ast.BoolOp):
+        return all(_truth_test(v) for v in e.values)
+    if isinstance(e, ast.Compare) and len(e.ops) == 1 and isinstance(e.ops[0], (ast.Is, ast.IsNot)):
+        return True
+    return False
+
+
 def _polarity(e):
     """(number of negative literals, disjunction at top level)"""
     def negs(x):
@@ -75,6 +89,17 @@ class Shape(ast.NodeTransformer):
         nt = self._swap(n.test)
         if nt is not None:
             return ast.copy_location(ast.IfExp(test=nt, body=n.orelse, orelse=n.body), n)
+        return n
+
+    def visit_BinOp(self, n):
+        self.generic_visit(n)
+        # `p | q` / `p & q` on two truth values without effects (isinstance tests, comparisons) is `p or q` / `p and q`
+        if isinstance(n.op, (ast.BitOr, ast.BitAnd)) and _truth_test(n.left) and _truth_test(n.right):
+            op = ast.Or() if isinstance(n.op, ast.BitOr) else ast.And()
+            vals = []
+            for v in (n.left, n.right):
+                vals += v.values if isinstance(v, ast.BoolOp) and type(v.op) is type(op) else [v]
+            return ast.copy_location(ast.BoolOp(op=op, values=vals), n)
         return n
 
     def visit_Compare(self, n):
@@ -689,6 +714,7 @@ def _inline_temps_once(fn):
             banned.add(n.target.id)
         todo.extend(ast.iter_child_nodes(n))
     changed = False
+    cfg = None
     for blk in _own_blocks(fn):
         # blocks of nested functions are handled with their own function
         i = 0
@@ -705,17 +731,26 @@ def _inline_temps_once(fn):
             if stores[t] == 1:
                 end, need = len(blk), loads[t]
             else:
-                # several definitions: this one is handled when the SAME block kills it unconditionally further down (a plain
-                # assignment to t) and nothing in between can leave the block while it is live
+                # several definitions: reaching definitions on the statement CFG - every load this definition reaches must be in the
+                # header of one of the statements that follow it in its block, before the next store to t in that block
                 k = next((j_ for j_ in range(i + 1, len(blk)) if t in _stores(blk[j_])), None)
-                kill = blk[k] if k is not None else None
-                tops = [y for tg in kill.targets for y in (tg.elts if isinstance(tg, (ast.Tuple, ast.List)) else [tg])] \
-                    if isinstance(kill, ast.Assign) else []
-                if kill is None or not any(isinstance(y, ast.Name) and y.id == t for y in tops) or \
-                        any(isinstance(x, (ast.Break, ast.Continue, ast.Try)) for s_ in blk[i + 1:k] for x in ast.walk(s_)):
+                end = len(blk) if k is None else k + 1
+                if k is not None and not (isinstance(blk[k], ast.Assign) and any(
+                        isinstance(y, ast.Name) and y.id == t for tg in blk[k].targets
+                        for y in (tg.elts if isinstance(tg, (ast.Tuple, ast.List)) else [tg]))):
                     i += 1
                     continue
-                end = k + 1
+                if cfg is None:
+                    from .cfg import CFG
+                    try:
+                        cfg = CFG(fn)
+                    except Exception:
+                        cfg = False
+                reached = _reached_loads(cfg, st, t) if cfg else None
+                region = {id(s_) for s_ in blk[i + 1:end]}
+                if reached is None or not reached or not all(id(n_.stmt) in region for n_ in reached):
+                    i += 1
+                    continue
                 need = sum(1 for s_ in blk[i + 1:end] for x in ast.walk(s_) if isinstance(x, ast.Name) and x.id == t and
                            isinstance(x.ctx, ast.Load))
                 if not need:
@@ -763,6 +798,7 @@ def _inline_temps_once(fn):
                 _replace_name(s, t, e)
             del blk[i]
             changed = True
+            cfg = None
             stores[t] -= 1
             loads[t] -= need
             for x in ast.walk(e):
@@ -770,6 +806,39 @@ def _inline_temps_once(fn):
                     loads[x.id] = loads.get(x.id, 0) + max(len(found) - 1, 0)
         # next block
     return changed
+
+
+def _reached_loads(cfg, def_stmt, t):
+    """CFG nodes that read t and can be reached from the definition def_stmt without passing another store to t; None if unknown"""
+    nd = cfg.stmt_node.get(id(def_stmt))
+    if nd is None or len(cfg.stmt_nodes.get(id(def_stmt), [])) != 1:
+        return None
+
+    def code_names(n, ctx):
+        c = n.code()
+        if c is None:
+            return False
+        if isinstance(c, (ast.FunctionDef, ast.AsyncFunctionDef, ast.ClassDef)):
+            return False
+        return any(isinstance(x, ast.Name) and x.id == t and isinstance(x.ctx, ctx) for x in ast.walk(c))
+    out, seen = [], set()
+    todo = list(cfg.succ[nd.id])
+    while todo:
+        k = todo.pop()
+        if k in seen:
+            continue
+        seen.add(k)
+        n = cfg.nodes[k]
+        if code_names(n, ast.Load):
+            out.append(n)
+        if k == nd.id:
+            continue          # back at the definition itself (loop): it stores t again
+        store_here = code_names(n, (ast.Store, ast.Del)) or (n.kind == 'iter' and any(
+            isinstance(x, ast.Name) and x.id == t for x in ast.walk(n.stmt.target)))
+        if store_here:
+            continue
+        todo.extend(cfg.succ[k])
+    return out
 
 
 def _reference_expr(e):
